@@ -81,6 +81,9 @@ func allTags(c *Contract) []string {
 		for _, cl := range l.Invariants {
 			add(cl.Tags)
 		}
+		for _, cl := range l.Steps {
+			add(cl.Tags)
+		}
 		if l.Decreases != nil {
 			add(l.Decreases.Tags)
 		}
